@@ -11,6 +11,7 @@ import (
 	"encoding/json"
 	"fmt"
 	"math"
+	"math/big"
 	"sort"
 	"strconv"
 	"strings"
@@ -126,11 +127,7 @@ func (e *exec) coerceVariables(op *ast.OperationDefinition, raw map[string]any) 
 		v, ok := raw[vd.Variable]
 		if !ok {
 			if vd.DefaultValue != nil {
-				dv, err := vd.DefaultValue.Value(nil)
-				if err != nil {
-					return nil, err
-				}
-				out[vd.Variable] = e.coerceInput(vd.Type, dv)
+				out[vd.Variable] = e.coerceInput(vd.Type, LitValue(vd.DefaultValue))
 			}
 			continue
 		}
@@ -166,8 +163,7 @@ func (e *exec) coerceInput(t *ast.Type, v any) any {
 			fv, has := m[fd.Name]
 			if !has {
 				if fd.DefaultValue != nil {
-					dv, _ := fd.DefaultValue.Value(nil)
-					out[fd.Name] = e.coerceInput(fd.Type, dv)
+					out[fd.Name] = e.coerceInput(fd.Type, LitValue(fd.DefaultValue))
 				}
 				continue
 			}
@@ -205,9 +201,39 @@ func (e *exec) argValue(v *ast.Value) (any, bool) {
 		}
 		return out, true
 	default:
-		val, _ := v.Value(nil)
-		return val, true
+		return LitValue(v), true
 	}
+}
+
+// LitValue evaluates a constant GraphQL literal: numbers are kept as exact
+// decimal text (json.Number), strings as decoded by the parser.
+func LitValue(v *ast.Value) any {
+	if v == nil {
+		return nil
+	}
+	switch v.Kind {
+	case ast.IntValue, ast.FloatValue:
+		return json.Number(v.Raw)
+	case ast.StringValue, ast.BlockValue, ast.EnumValue:
+		return v.Raw
+	case ast.BooleanValue:
+		return v.Raw == "true"
+	case ast.NullValue:
+		return nil
+	case ast.ListValue:
+		out := []any{}
+		for _, c := range v.Children {
+			out = append(out, LitValue(c.Value))
+		}
+		return out
+	case ast.ObjectValue:
+		out := map[string]any{}
+		for _, c := range v.Children {
+			out[c.Name] = LitValue(c.Value)
+		}
+		return out
+	}
+	return nil
 }
 
 func (e *exec) arguments(f *ast.Field) map[string]any {
@@ -222,7 +248,7 @@ func (e *exec) arguments(f *ast.Field) map[string]any {
 			val, has = e.argValue(a.Value)
 		}
 		if !has && ad.DefaultValue != nil {
-			val, _ = ad.DefaultValue.Value(nil)
+			val = LitValue(ad.DefaultValue)
 			has = true
 		}
 		if has {
@@ -504,10 +530,13 @@ func canon(sb *strings.Builder, v any) {
 			sb.WriteString(strconv.FormatFloat(x, 'g', -1, 64))
 		}
 	case json.Number:
-		if i, err := x.Int64(); err == nil {
-			sb.WriteString(strconv.FormatInt(i, 10))
-		} else if f, err := x.Float64(); err == nil {
-			canon(sb, f)
+		// exact decimal comparison
+		if r, ok := new(big.Rat).SetString(string(x)); ok {
+			if r.IsInt() {
+				sb.WriteString(r.Num().String())
+			} else {
+				sb.WriteString(r.RatString())
+			}
 		} else {
 			sb.WriteString(string(x))
 		}
